@@ -147,6 +147,15 @@ CHECKS = {
         "Key rejection is asserted only for keys without any variable letter and for a direction of the other variable (DESIGN 6.8).",
         "DESIGN.md section 4 C17",
     ),
+    "C18": (
+        "seeded Hypothesis generation of element lists x operations x construction paths; plain-list reference models",
+        "filter / filter_errors / filter_duplicates (all methods) with and without drop, group_by / group_by_nested with 1..3 attributes, "
+        "into= (pre-populated) and unpack_group, and every construction path with iterables that contain at most one unacceptable element, "
+        "for TractList, TRSList and the PLSSDesc wrappers, are compared element-identity-wise with plain-list models; a failed construction "
+        "must raise TypeError and leave the container unchanged.",
+        "'instance' duplicates are exercised on TractList only; dicts are not generated as containers.",
+        "DESIGN.md section 4 C18",
+    ),
 }
 
 NOT_BUILT = {}
